@@ -43,24 +43,24 @@ var models = map[string]Model{
 	"fmt.Sprint":  {Pure: true, Why: "fmt docs"},
 
 	// --- strings / strconv / bytes ---
-	"strings.Split":           {Pure: true, NonNil: []bool{true}, Custom: modelSplit, Why: "strings docs: len(result) >= 1 for a non-empty separator"},
-	"strings.Contains":        {Pure: true, Why: "strings docs"},
-	"strings.HasPrefix":       {Pure: true, Why: "strings docs"},
-	"strings.HasSuffix":       {Pure: true, Why: "strings docs"},
-	"strings.TrimSpace":       {Pure: true, Why: "strings docs"},
-	"strconv.Atoi":            {Pure: true, Why: "strconv docs"},
-	"strconv.Itoa":            {Pure: true, Why: "strconv docs"},
-	"bytes.NewReader":         {Pure: true, NonNil: []bool{true}, Retains: []int{0}, Why: "bytes docs: reader over the given slice"},
-	"(*bytes.Buffer).Write":   {Writes: []int{0}, Why: "bytes docs: copies p into the buffer"},
-	"(*bytes.Buffer).Bytes":   {Pure: true, Why: "bytes docs"},
-	"(*bytes.Buffer).String":  {Pure: true, Why: "bytes docs"},
+	"strings.Split":               {Pure: true, NonNil: []bool{true}, Custom: modelSplit, Why: "strings docs: len(result) >= 1 for a non-empty separator"},
+	"strings.Contains":            {Pure: true, Why: "strings docs"},
+	"strings.HasPrefix":           {Pure: true, Why: "strings docs"},
+	"strings.HasSuffix":           {Pure: true, Why: "strings docs"},
+	"strings.TrimSpace":           {Pure: true, Why: "strings docs"},
+	"strconv.Atoi":                {Pure: true, Why: "strconv docs"},
+	"strconv.Itoa":                {Pure: true, Why: "strconv docs"},
+	"bytes.NewReader":             {Pure: true, NonNil: []bool{true}, Retains: []int{0}, Why: "bytes docs: reader over the given slice"},
+	"(*bytes.Buffer).Write":       {Writes: []int{0}, Why: "bytes docs: copies p into the buffer"},
+	"(*bytes.Buffer).Bytes":       {Pure: true, Why: "bytes docs"},
+	"(*bytes.Buffer).String":      {Pure: true, Why: "bytes docs"},
 	"(*bytes.Buffer).WriteString": {Writes: []int{0}, Why: "bytes docs"},
 	"(*bytes.Buffer).WriteByte":   {Writes: []int{0}, Why: "bytes docs"},
 
 	// --- regexp ---
-	"regexp.MustCompile":              {Pure: true, NonNil: []bool{true}, Why: "regexp docs: panics instead of returning nil"},
-	"(*regexp.Regexp).MatchString":    {Pure: true, Why: "regexp docs: a Regexp is safe for concurrent use and is not modified by matching"},
-	"(*regexp.Regexp).Match":          {Pure: true, Why: "regexp docs"},
+	"regexp.MustCompile":           {Pure: true, NonNil: []bool{true}, Why: "regexp docs: panics instead of returning nil"},
+	"(*regexp.Regexp).MatchString": {Pure: true, Why: "regexp docs: a Regexp is safe for concurrent use and is not modified by matching"},
+	"(*regexp.Regexp).Match":       {Pure: true, Why: "regexp docs"},
 
 	// --- encoding/binary ---
 	"(encoding/binary.bigEndian).Uint16":       {Pure: true, Custom: modelBEUint(16), Why: "encoding/binary: reads b[0:2] big-endian"},
@@ -71,33 +71,33 @@ var models = map[string]Model{
 	"(encoding/binary.bigEndian).AppendUint64": {Pure: true, Custom: modelBEAppend(64), Why: "encoding/binary"},
 
 	// --- encoding/json ---
-	"encoding/json.Marshal":            {Pure: true, Why: "encoding/json: reads v (calls its MarshalJSON), returns fresh bytes"},
-	"encoding/json.Unmarshal":          {Writes: []int{1}, Why: "encoding/json: reads data, writes *v; byte strings are base64-decoded into fresh slices; nesting limited to 10000"},
-	"encoding/json.NewDecoder":         {Pure: true, NonNil: []bool{true}, Why: "encoding/json"},
-	"(*encoding/json.Decoder).Token":   {Writes: []int{0}, Why: "encoding/json: advances the decoder"},
-	"(*encoding/json.Decoder).More":    {Pure: true, Why: "encoding/json"},
+	"encoding/json.Marshal":          {Pure: true, Why: "encoding/json: reads v (calls its MarshalJSON), returns fresh bytes"},
+	"encoding/json.Unmarshal":        {Writes: []int{1}, Why: "encoding/json: reads data, writes *v; byte strings are base64-decoded into fresh slices; nesting limited to 10000"},
+	"encoding/json.NewDecoder":       {Pure: true, NonNil: []bool{true}, Why: "encoding/json"},
+	"(*encoding/json.Decoder).Token": {Writes: []int{0}, Why: "encoding/json: advances the decoder"},
+	"(*encoding/json.Decoder).More":  {Pure: true, Why: "encoding/json"},
 
 	// --- reflect (pure with respect to everything but dest, which is written only through Addr().Interface() handed to a decoder) ---
-	"reflect.TypeOf":                {Pure: true, Why: "reflect docs"},
-	"reflect.ValueOf":               {Pure: true, Why: "reflect docs"},
-	"(reflect.StructTag).Lookup":    {Pure: true, Why: "reflect docs"},
-	"(reflect.StructTag).Get":       {Pure: true, Why: "reflect docs"},
-	"(reflect.Value).Addr":          {Pure: true, Why: "reflect docs"},
-	"(reflect.Value).Elem":          {Pure: true, Why: "reflect docs"},
-	"(reflect.Value).Field":         {Pure: true, Why: "reflect docs"},
-	"(reflect.Value).Interface":     {Pure: true, Why: "reflect docs"},
-	"(reflect.Value).IsZero":        {Pure: true, Why: "reflect docs"},
-	"(reflect.Value).IsNil":         {Pure: true, Why: "reflect docs"},
-	"(reflect.Value).IsValid":       {Pure: true, Why: "reflect docs"},
-	"(reflect.Value).Kind":          {Pure: true, Why: "reflect docs"},
-	"(reflect.Value).NumField":      {Pure: true, Why: "reflect docs"},
-	"(reflect.Value).Type":          {Pure: true, NonNil: []bool{true}, Why: "reflect docs"},
-	"invoke reflect.Type.Elem":      {Pure: true, NonNil: []bool{true}, Why: "reflect docs"},
-	"invoke reflect.Type.Field":     {Pure: true, Why: "reflect docs"},
-	"invoke reflect.Type.Kind":      {Pure: true, Why: "reflect docs"},
-	"invoke reflect.Type.Name":      {Pure: true, Why: "reflect docs"},
-	"invoke reflect.Type.NumField":  {Pure: true, Why: "reflect docs"},
-	"invoke reflect.Type.String":    {Pure: true, Why: "reflect docs"},
+	"reflect.TypeOf":               {Pure: true, Why: "reflect docs"},
+	"reflect.ValueOf":              {Pure: true, Why: "reflect docs"},
+	"(reflect.StructTag).Lookup":   {Pure: true, Why: "reflect docs"},
+	"(reflect.StructTag).Get":      {Pure: true, Why: "reflect docs"},
+	"(reflect.Value).Addr":         {Pure: true, Why: "reflect docs"},
+	"(reflect.Value).Elem":         {Pure: true, Why: "reflect docs"},
+	"(reflect.Value).Field":        {Pure: true, Why: "reflect docs"},
+	"(reflect.Value).Interface":    {Pure: true, Why: "reflect docs"},
+	"(reflect.Value).IsZero":       {Pure: true, Why: "reflect docs"},
+	"(reflect.Value).IsNil":        {Pure: true, Why: "reflect docs"},
+	"(reflect.Value).IsValid":      {Pure: true, Why: "reflect docs"},
+	"(reflect.Value).Kind":         {Pure: true, Why: "reflect docs"},
+	"(reflect.Value).NumField":     {Pure: true, Why: "reflect docs"},
+	"(reflect.Value).Type":         {Pure: true, NonNil: []bool{true}, Why: "reflect docs"},
+	"invoke reflect.Type.Elem":     {Pure: true, NonNil: []bool{true}, Why: "reflect docs"},
+	"invoke reflect.Type.Field":    {Pure: true, Why: "reflect docs"},
+	"invoke reflect.Type.Kind":     {Pure: true, Why: "reflect docs"},
+	"invoke reflect.Type.Name":     {Pure: true, Why: "reflect docs"},
+	"invoke reflect.Type.NumField": {Pure: true, Why: "reflect docs"},
+	"invoke reflect.Type.String":   {Pure: true, Why: "reflect docs"},
 
 	// --- fxamacker/cbor v2.5.0 ---
 	"(" + pCBOR + ".EncOptions).EncMode":          {Pure: true, Why: "cbor v2.5.0 encode.go: builds an immutable mode; (nil, err) or (mode, nil)"},
@@ -107,23 +107,23 @@ var models = map[string]Model{
 	"invoke " + pCBOR + ".DecMode.UnmarshalFirst": {Writes: []int{2}, Why: "cbor v2.5.0 decode.go: as Unmarshal; rest is a sub-slice of data"},
 
 	// --- veraison/go-cose v1.3.0-rc.1 ---
-	pCOSE + ".NewSign1Message":                       {Pure: true, NonNil: []bool{true}, Custom: modelFresh("Sign1Message"), Why: "go-cose sign1.go: fresh message, nil payload, nil signature, empty header maps"},
-	pCOSE + ".NewVerifier":                           {Pure: true, Why: "go-cose verifier.go"},
-	"(*" + pCOSE + ".Sign1Message).UnmarshalCBOR":     {Writes: []int{0}, Why: "go-cose sign1.go: replaces *m only on success"},
-	"(*" + pCOSE + ".Sign1Message).MarshalCBOR":       {Pure: true, Why: "go-cose sign1.go: reads m"},
-	"(*" + pCOSE + ".Sign1Message).Sign":              {Writes: []int{0}, Why: "go-cose sign1.go: sets m.Signature after the signer succeeded"},
-	"(*" + pCOSE + ".Sign1Message).Verify":            {Pure: true, Why: "go-cose sign1.go: does not write *m"},
-	"(" + pCOSE + ".ProtectedHeader).Algorithm":       {Pure: true, Why: "go-cose headers.go: reads the map"},
-	"(" + pCOSE + ".ProtectedHeader).SetAlgorithm":    {Writes: []int{0}, Why: "go-cose headers.go: writes the alg label into the (shared) header map"},
-	"(" + pCOSE + ".Algorithm).String":                {Pure: true, Why: "go-cose algorithm.go"},
-	"invoke " + pCOSE + ".Signer.Algorithm":           {Pure: true, Why: "go-cose signer.go: accessor of a caller-supplied signer"},
+	pCOSE + ".NewSign1Message":                     {Pure: true, NonNil: []bool{true}, Custom: modelFresh("Sign1Message"), Why: "go-cose sign1.go: fresh message, nil payload, nil signature, empty header maps"},
+	pCOSE + ".NewVerifier":                         {Pure: true, Why: "go-cose verifier.go"},
+	"(*" + pCOSE + ".Sign1Message).UnmarshalCBOR":  {Writes: []int{0}, Why: "go-cose sign1.go: replaces *m only on success"},
+	"(*" + pCOSE + ".Sign1Message).MarshalCBOR":    {Pure: true, Why: "go-cose sign1.go: reads m"},
+	"(*" + pCOSE + ".Sign1Message).Sign":           {Writes: []int{0}, Why: "go-cose sign1.go: sets m.Signature after the signer succeeded"},
+	"(*" + pCOSE + ".Sign1Message).Verify":         {Pure: true, Why: "go-cose sign1.go: does not write *m"},
+	"(" + pCOSE + ".ProtectedHeader).Algorithm":    {Pure: true, Why: "go-cose headers.go: reads the map"},
+	"(" + pCOSE + ".ProtectedHeader).SetAlgorithm": {Writes: []int{0}, Why: "go-cose headers.go: writes the alg label into the (shared) header map"},
+	"(" + pCOSE + ".Algorithm).String":             {Pure: true, Why: "go-cose algorithm.go"},
+	"invoke " + pCOSE + ".Signer.Algorithm":        {Pure: true, Why: "go-cose signer.go: accessor of a caller-supplied signer"},
 
 	// --- veraison/eat ---
 	"(*" + pEAT + ".Nonce).Add":   {Writes: []int{0}, Custom: modelNonceAdd, Why: "eat nonce.go:19,124: appends v when 8 <= len(v) <= 64, else error; on an empty Nonce the result has Len()=1 and GetI(0)=v"},
 	"(" + pEAT + ".Nonce).Len":    {Pure: true, Custom: modelNonceLen, Why: "eat nonce.go"},
 	"(" + pEAT + ".Nonce).GetI":   {Pure: true, Custom: modelNonceGetI, Why: "eat nonce.go"},
-	"(*" + pEAT + ".Profile).Set": {Writes: []int{0}, Why: "eat profile.go"},
-	"(" + pEAT + ".Profile).Get":  {Pure: true, Why: "eat profile.go"},
+	"(*" + pEAT + ".Profile).Set": {Writes: []int{0}, Custom: modelProfileSet, Why: "eat profile.go: on success the Profile holds the given URI/OID string"},
+	"(" + pEAT + ".Profile).Get":  {Pure: true, Custom: modelProfileGet, Why: "eat profile.go: returns the string set"},
 }
 
 func modelErrorsNew(e *Engine, st *State, x *ssa.Call, args []AV) AV {
@@ -354,4 +354,28 @@ func modelNonceGetI(e *Engine, st *State, x *ssa.Call, args []AV) AV {
 		names = append(names, a.name())
 	}
 	return e.resultAV(st, x, "(eat.Nonce).GetI("+strings.Join(names, ",")+")", nil)
+}
+
+// modelProfileSet: after a successful Set(s) the Profile holds s (Get returns
+// it); whether Set succeeds is not modelled (symbolic error).
+func modelProfileSet(e *Engine, st *State, x *ssa.Call, args []AV) AV {
+	if len(args) == 2 && args[0].Kind == KAddr {
+		v := args[1]
+		e.kill(st, args[0].Loc)
+		st.mem[args[0].Loc] = AV{Kind: KSym, Sym: "profile(" + v.name() + ")", Inner: &v}
+	} else if len(args) > 0 {
+		e.havocPointee(st, args[0], "Profile.Set")
+	}
+	return e.resultAV(st, x, fmt.Sprintf("(*eat.Profile).Set#%s.%s@%d", x.Parent().Name(), x.Name(), st.epoch), nil)
+}
+
+func modelProfileGet(e *Engine, st *State, x *ssa.Call, args []AV) AV {
+	if len(args) == 1 && args[0].Kind == KSym && strings.HasPrefix(args[0].Sym, "profile(") && args[0].Inner != nil {
+		return AV{Kind: KTuple, Elems: []AV{*args[0].Inner, avNil()}}
+	}
+	var names []string
+	for _, a := range args {
+		names = append(names, a.name())
+	}
+	return e.resultAV(st, x, "(eat.Profile).Get("+strings.Join(names, ",")+")", nil)
 }
